@@ -14,6 +14,7 @@ open AwsVerif.Log AwsVerif.Gen.Log AwsVerif.Proofs.C14
 
 
 
+
 /-- **Line shape.**  When the buffer can hold the whole line and its terminator, the formatter
 succeeds, `amount_written` is the length of `prefix ++ message ++ "\n"`, those bytes are exactly that
 line (whatever the buffer held before), a NUL follows it inside the buffer, and with NUL-free inputs
@@ -178,13 +179,15 @@ theorem c14_fg_safety (s : Fg.Sys) (hr : Fg.Reachable s) :
 /-- **No-alloc logger used by any number of threads**, every interleaving: the file holds exactly the lines the
 calls formatted, in the order of their `fwrite`s — none torn, replaced or duplicated (`file = logged.map some`,
 which rests on each call formatting into its own buffer); a thread's lines appear in its call order and no
-line twice; every call that has returned has its line in the file; and at most one thread is between lock
-and unlock. -/
+line twice; every call that has returned has its line in the file; at most one thread is between lock
+and unlock; and every line in the file carries the id of the thread whose call wrote it (the thread-id cache of
+the formatter is thread-local). -/
 theorem c14_noalloc_threads (s : Na.Sys) (hr : Na.Reachable s) :
     s.file = s.logged.map some ∧
     s.logged.Pairwise (fun a b => a.1 = b.1 → a.2 < b.2) ∧ s.logged.Nodup ∧
     (∀ l ∈ s.returned, l ∈ s.logged) ∧
-    (∀ t, nHolds (s.pcs t) = true ↔ s.mutex = some t) :=
+    (∀ t, nHolds (s.pcs t) = true ↔ s.mutex = some t) ∧
+    s.logged.map (·.1) = s.writers :=
   Thm.c14_noalloc_threads s hr
 
 /-! hypotheses of the theorems above are satisfiable by non-trivial data -/
